@@ -232,5 +232,37 @@ func runControls(dir string) *controlResult {
 	expect("WireReader signature", rs != "UV [U64] U32", false, "unexpected reader signature "+rs)
 	_ = w.signature("WireWriterLE")
 	expect("WireWriterLE", len(w.problems) > 0, true, "non-big-endian byte order")
+	// rules whose expected count on the real tree is zero: run them on the controls
+	for _, rc := range []struct {
+		rule string
+		want map[string]bool
+	}{
+		{"EMPTY-SAFE", map[string]bool{"BadConstIndex": true, "GoodConstIndexGuarded": false, "GoodConstIndexByConstruction": false}},
+	} {
+		rule := rules[rc.rule]
+		if rule == nil {
+			res.OK = false
+			res.Failures = append(res.Failures, "rule "+rc.rule+" is not registered")
+			continue
+		}
+		rep := &Report{c: c, rule: rule.Name}
+		rule.Run(c, "", rep)
+		got := map[string]bool{}
+		seen := map[string]bool{}
+		for _, o := range rep.obs {
+			seen[o.Func] = true
+			if o.st != Discharged {
+				got[o.Func] = true
+			}
+		}
+		for name, want := range rc.want {
+			if !seen[name] {
+				res.OK = false
+				res.Failures = append(res.Failures, rc.rule+" did not match its control "+name)
+				continue
+			}
+			expect(name, got[name], want, rc.rule)
+		}
+	}
 	return res
 }
